@@ -35,15 +35,52 @@ impl MemoryFS {
         }
     }
 
-    fn ensure_has_parent(&self, path: &str) -> VfsResult<()> {
-        let separator = path.rfind('/');
-        if let Some(index) = separator {
-            if self.exists(&path[..index])? {
-                return Ok(());
+}
+
+/// Checks, while the caller holds the lock, that the parent of `path` is an existing directory
+fn ensure_has_parent(files: &HashMap<String, MemoryFile>, path: &str) -> VfsResult<()> {
+    if let Some(index) = path.rfind('/') {
+        match files.get(&path[..index]) {
+            Some(parent) if parent.file_type == VfsFileType::Directory => return Ok(()),
+            Some(_) => {
+                return Err(VfsErrorKind::Other("Parent path is not a directory".into()).into())
             }
+            None => {}
         }
-        Err(VfsErrorKind::Other("Parent path does not exist".into()).into())
     }
+    Err(VfsErrorKind::Other("Parent path does not exist".into()).into())
+}
+
+/// Lists the names of the entries of directory `path`, while the caller holds the lock
+fn list_dir(files: &HashMap<String, MemoryFile>, path: &str) -> VfsResult<Vec<String>> {
+    let prefix = format!("{}/", path);
+    let mut found_directory = false;
+    let mut found_file = false;
+    let entries: Vec<_> = files
+        .iter()
+        .filter_map(|(candidate_path, candidate)| {
+            if candidate_path == path {
+                match candidate.file_type {
+                    VfsFileType::Directory => found_directory = true,
+                    VfsFileType::File => found_file = true,
+                }
+            }
+            if candidate_path.starts_with(&prefix) {
+                let rest = &candidate_path[prefix.len()..];
+                if !rest.contains('/') {
+                    return Some(rest.to_string());
+                }
+            }
+            None
+        })
+        .collect();
+    if found_file {
+        return Err(VfsErrorKind::Other("Not a directory".into()).into());
+    }
+    if !found_directory {
+        return Err(VfsErrorKind::FileNotFound.into());
+    }
+    Ok(entries)
 }
 
 impl Default for MemoryFS {
@@ -153,42 +190,14 @@ impl Seek for ReadableFile {
 
 impl FileSystem for MemoryFS {
     fn read_dir(&self, path: &str) -> VfsResult<Box<dyn Iterator<Item = String> + Send>> {
-        let prefix = format!("{}/", path);
         let handle = self.handle.read().unwrap();
-        let mut found_directory = false;
-        let mut found_file = false;
-        #[allow(clippy::needless_collect)] // need collect to satisfy lifetime requirements
-        let entries: Vec<_> = handle
-            .files
-            .iter()
-            .filter_map(|(candidate_path, candidate)| {
-                if candidate_path == path {
-                    match candidate.file_type {
-                        VfsFileType::Directory => found_directory = true,
-                        VfsFileType::File => found_file = true,
-                    }
-                }
-                if candidate_path.starts_with(&prefix) {
-                    let rest = &candidate_path[prefix.len()..];
-                    if !rest.contains('/') {
-                        return Some(rest.to_string());
-                    }
-                }
-                None
-            })
-            .collect();
-        if found_file {
-            return Err(VfsErrorKind::Other("Not a directory".into()).into());
-        }
-        if !found_directory {
-            return Err(VfsErrorKind::FileNotFound.into());
-        }
+        let entries = list_dir(&handle.files, path)?;
         Ok(Box::new(entries.into_iter()))
     }
 
     fn create_dir(&self, path: &str) -> VfsResult<()> {
-        self.ensure_has_parent(path)?;
         let map = &mut self.handle.write().unwrap().files;
+        ensure_has_parent(map, path)?;
         let entry = map.entry(path.to_string());
         match entry {
             Entry::Occupied(file) => {
@@ -214,10 +223,12 @@ impl FileSystem for MemoryFS {
     }
 
     fn open_file(&self, path: &str) -> VfsResult<Box<dyn SeekAndRead + Send>> {
-        self.set_access_time(path, SystemTime::now())?;
-
-        let handle = self.handle.read().unwrap();
-        let file = handle.files.get(path).ok_or(VfsErrorKind::FileNotFound)?;
+        let mut handle = self.handle.write().unwrap();
+        let file = handle
+            .files
+            .get_mut(path)
+            .ok_or(VfsErrorKind::FileNotFound)?;
+        file.accessed = Some(SystemTime::now());
         ensure_file(file)?;
         Ok(Box::new(ReadableFile {
             content: file.content.clone(),
@@ -226,9 +237,9 @@ impl FileSystem for MemoryFS {
     }
 
     fn create_file(&self, path: &str) -> VfsResult<Box<dyn SeekAndWrite + Send>> {
-        self.ensure_has_parent(path)?;
         let content = Arc::new(Vec::<u8>::new());
         let mut handle = self.handle.write().unwrap();
+        ensure_has_parent(&handle.files, path)?;
         if let Some(existing) = handle.files.get(path) {
             ensure_file(existing)?;
         }
@@ -320,10 +331,10 @@ impl FileSystem for MemoryFS {
     }
 
     fn remove_dir(&self, path: &str) -> VfsResult<()> {
-        if self.read_dir(path)?.next().is_some() {
+        let mut handle = self.handle.write().unwrap();
+        if !list_dir(&handle.files, path)?.is_empty() {
             return Err(VfsErrorKind::Other("Directory to remove is not empty".into()).into());
         }
-        let mut handle = self.handle.write().unwrap();
         handle
             .files
             .remove(path)
